@@ -8,6 +8,7 @@ from pyvc.numexec import Num, Bool, Unsupported
 from pyvc.heap import (HeapExec, HPath, LoopSpec, Ref, NONE, XR, Act, cls_of, SeqRef, SeqAct, x2xr, xr2x, RefV, SeqV, ActV, sort_of, str_distinct)
 from pyvc.solve import Obl, static, undecided
 from pyvc.runner import main
+from pyvc.source import NotFound
 from contracts import wiring as W
 
 
@@ -211,7 +212,7 @@ def build(run):
         except Unsupported as ex_:
             run.add(undecided(f"{fq}/subset", f"outside the verified subset: {ex_}", fn=fq, meta={"replay": rp} if rp else None))
             continue
-        except KeyError as ex_:
+        except NotFound as ex_:
             run.add(static(f"{fq}/exists", False, f"function under contract not found: {ex_}", fn=fq))
             continue
     for f in ():
@@ -219,7 +220,7 @@ def build(run):
             f(run)
         except Unsupported as ex_:
             run.add(undecided(f"{getattr(f, '__name__', 'fn')}{len(run.obls)}/subset", f"outside the verified subset: {ex_}"))
-        except KeyError as ex_:
+        except NotFound as ex_:
             run.add(static(f"{getattr(f, '__name__', 'fn')}{len(run.obls)}/exists", False, f"function under contract not found: {ex_}"))
 
 
